@@ -1,5 +1,5 @@
 #!/bin/bash
-# usage: tools_seed_eval.sh <Cxx> <seed-dir-with-patch.diff> [checks-to-run...]
+# usage: [SEED_EVAL_TIER=thorough [VERIF_CHECKS=n]] tools_seed_eval.sh <Cxx> <seed-dir-with-patch.diff> [checks-to-run...]
 # In a scratch worktree of /repo's HEAD (removed afterwards; /repo itself is not touched, so several
 # evaluations can run side by side):
 # 1. confirms that the patch applies, builds and passes the existing suite
@@ -18,5 +18,5 @@ echo "suite with patch: $(grep -c '^ok' "$root/suite.log") packages ok, $(grep -
 git -C "$wt" clean -fdq
 mkdir -p "$hs"; cp -r /verif/harness/. "$hs"/; sed -i "s|=> /repo|=> $wt|" "$hs/go.mod"
 for p in "$prop" "$@"; do
-  ( cd /verif && VERIF_REPO_DIR="$wt" VERIF_HARNESS_DIR="$hs" VERIF_EVIDENCE_DIR=/verif/.build/mutant-evidence ./vcheck "$p" quick 2>&1 | grep -E "^(VIOLATION|OK|INCONCLUSIVE|BUILD-FAILED|KNOWN|----)" | head -4 | sed "s/^/[$p] /" )
+  ( cd /verif && VERIF_REPO_DIR="$wt" VERIF_HARNESS_DIR="$hs" VERIF_EVIDENCE_DIR=/verif/.build/mutant-evidence ./vcheck "$p" "${SEED_EVAL_TIER:-quick}" 2>&1 | grep -E "^(VIOLATION|OK|INCONCLUSIVE|BUILD-FAILED|KNOWN|----)" | head -4 | sed "s/^/[$p] /" )
 done
